@@ -9,7 +9,10 @@ Case formats (see harness/ext/src/bin/c15.rs):
            limits, cyclic, 0 = no limit; scripted Pending answers, one 0/1 per transport call)
   2 tls <relay c2s> <relay s2c> sndbuf mode nmsg (kind len)* seed
       compio-ws over Unix socket pairs with a relay; tls 0 plain, 1 native-tls, 2 rustls;
-      relay = nr rlims.. nd delays..; mode 0 lock-step, 1 pipelined, 2 server idles after a Ping;
+      relay = nr rlims.. nd delays..; mode 0 lock-step, 1 pipelined, 2 server idles after a Ping,
+      3 stalled outgoing direction: the messages are the SERVER's; the client has a 400000-byte message
+      fed but not flushed while the relay does not read the client's direction (its socket is full), and
+      reads: every message must be delivered once, in order, when the flush can complete;
       message kind 0 text, 1 binary, 2 ping
   3 role len
       native-tls over a transport that is always ready (peer on another thread) and holds
@@ -93,16 +96,16 @@ def gen_ws(r):
     def rr():
         return relay([r.choice([0] + small + [50, 1000]) for _ in range(r.randint(0, 3))],
                      [r.choice([0, 1, 3, 7]) for _ in range(r.randint(0, 3))])
-    mode = r.choice([0, 0, 1, 2])
-    n = r.randint(0, 6)
+    mode = r.choice([0, 0, 1, 2, 3, 3, 3])
+    n = r.randint(0, 6) if mode != 3 else r.randint(2, 8)
     msgs = []
     for _ in range(n):
         k = r.choice([0, 0, 1, 1, 2])
-        l = r.choice([0, 1, 20, 125, 126, 300, 5000]) if mode != 1 else r.choice([0, 1, 20, 125, 300])
-        if r.random() < 0.08 and mode != 1:
+        l = r.choice([0, 1, 20, 125, 126, 300, 5000]) if mode not in (1, 3) else r.choice([0, 1, 20, 125, 300])
+        if r.random() < 0.08 and mode not in (1, 3):
             l = 70000
         msgs.append((k, l))
-    sndbuf = r.choice([0, 0, 4096])
+    sndbuf = r.choice([0, 0, 4096]) if mode != 3 else r.choice([0, 4096, 4096])
     return ws_case(tls, rr(), rr(), sndbuf, mode, msgs, r.randint(0, 255))
 
 
@@ -129,12 +132,20 @@ def describe(case):
             return "tls/%s/%s" % ("native" if case[1] == 0 else "rustls",
                                   "direct" if case[2] == 0 else "asyncstream")
         if k == 2:
-            return "ws/%s" % ["plain", "native", "rustls"][case[1]]
+            return "ws/%s%s" % (["plain", "native", "rustls"][case[1]], "/stalled-outgoing" if ws_mode(case) == 3 else "")
         if k == 3:
             return "tls/native/always-ready/%s" % ("client" if case[1] == 0 else "server")
     except IndexError:
         pass
     return "malformed"
+
+
+def ws_mode(case):
+    p = 2
+    for _ in range(2):
+        for _ in range(2):
+            p += 1 + case[p]
+    return case[p + 1]
 
 
 def nontrivial(case, out):
